@@ -235,69 +235,101 @@ namespace ExpectCalc
 open GoblVerif.Generated.Calc
 
 theorem calls_calculateLines_as_modelled : calls_calculateLines =
-    ["calculateLine", "Itoa"] := by decide
+    ["calculateLine", "Itoa"] := rfl
 theorem conds_calculateLines_as_modelled : conds_calculateLines =
-    ["err := calculateLine(l, cur, rates, rr); err != nil"] := by decide
+    ["err := calculateLine(l, cur, rates, rr); err != nil"] := rfl
+theorem stmts_calculateLines_as_modelled : stmts_calculateLines =
+    ["l.Index = i + 1", "err := calculateLine(l, cur, rates, rr)", "return validation.Errors{strconv.Itoa(i): err}", "return nil"] := rfl
 theorem calls_calculateLine_as_modelled : calls_calculateLine =
-    ["Zero", "Def", "len", "calculateSubLine", "Itoa", "len", "calculateSubLine", "Itoa", "Add", "MatchPrecision", "Rescale", "determineSubLinePrecision", "calculateLineItemPrice", "Exp", "RescaleUp", "Multiply", "ApplyRoundingRule", "calculateLineDiscounts", "calculateLineCharges"] := by decide
+    ["Zero", "Def", "len", "calculateSubLine", "Itoa", "len", "calculateSubLine", "Itoa", "Add", "MatchPrecision", "Rescale", "determineSubLinePrecision", "calculateLineItemPrice", "Exp", "RescaleUp", "Multiply", "ApplyRoundingRule", "calculateLineDiscounts", "calculateLineCharges"] := rfl
 theorem conds_calculateLine_as_modelled : conds_calculateLine =
-    ["l.Item == nil", "len(l.Substituted) > 0", "err := calculateSubLine(sl, cur, rates, rr); err != nil", "len(l.Breakdown) > 0", "err := calculateSubLine(sl, cur, rates, rr); err != nil", "sl.Total != nil", "hasPrice", "l.Item.Price == nil", "err := calculateLineItemPrice(l.Item, cur, rates); err != nil", "rr == tax.RoundingRulePrecise"] := by decide
+    ["l.Item == nil", "len(l.Substituted) > 0", "err := calculateSubLine(sl, cur, rates, rr); err != nil", "len(l.Breakdown) > 0", "err := calculateSubLine(sl, cur, rates, rr); err != nil", "sl.Total != nil", "hasPrice", "l.Item.Price == nil", "err := calculateLineItemPrice(l.Item, cur, rates); err != nil", "rr == tax.RoundingRulePrecise"] := rfl
+theorem stmts_calculateLine_as_modelled : stmts_calculateLine =
+    ["return nil", "zero := cur.Def().Zero()", "sl.Index = i + 1", "err := calculateSubLine(sl, cur, rates, rr)", "return validation.Errors{ \"substituted\": validation.Errors{strconv.Itoa(i): err}, }", "np := zero", "hasPrice := false", "sl.Index = i + 1", "err := calculateSubLine(sl, cur, rates, rr)", "return validation.Errors{ \"breakdown\": validation.Errors{strconv.Itoa(i): err}, }", "hasPrice = true", "np = np.MatchPrecision(*sl.Total).Add(*sl.Total)", "np = np.Rescale(determineSubLinePrecision(l.Breakdown))", "l.Item.Currency = cur", "l.Item.Price = &np", "l.Item.AltPrices = nil", "l.Item.AltPrices = nil", "l.Sum = nil", "l.Total = nil", "return nil", "err := calculateLineItemPrice(l.Item, cur, rates)", "return validation.Errors{ \"item\": err, }", "exp := zero.Exp()", "exp += linePrecisionExtra", "price := l.Item.Price.RescaleUp(exp)", "sum := price.Multiply(l.Quantity)", "sum = tax.ApplyRoundingRule(rr, cur, sum)", "total := sum", "total = calculateLineDiscounts(l.Discounts, sum, total, cur, rr)", "total = calculateLineCharges(l.Charges, l.Quantity, sum, total, cur, rr)", "l.Sum = &sum", "l.Total = &total", "return nil"] := rfl
 theorem calls_calculateSubLine_as_modelled : calls_calculateSubLine =
-    ["calculateLineItemPrice", "Zero", "Def", "RescaleUp", "Exp", "Multiply", "ApplyRoundingRule", "calculateLineDiscounts", "calculateLineCharges"] := by decide
+    ["calculateLineItemPrice", "Zero", "Def", "RescaleUp", "Exp", "Multiply", "ApplyRoundingRule", "calculateLineDiscounts", "calculateLineCharges"] := rfl
 theorem conds_calculateSubLine_as_modelled : conds_calculateSubLine =
-    ["sl.Item == nil", "sl.Item.Price == nil", "err := calculateLineItemPrice(sl.Item, cur, rates); err != nil", "rr == tax.RoundingRulePrecise"] := by decide
+    ["sl.Item == nil", "sl.Item.Price == nil", "err := calculateLineItemPrice(sl.Item, cur, rates); err != nil", "rr == tax.RoundingRulePrecise"] := rfl
+theorem stmts_calculateSubLine_as_modelled : stmts_calculateSubLine =
+    ["return nil", "sl.Sum = nil", "sl.Total = nil", "return nil", "err := calculateLineItemPrice(sl.Item, cur, rates)", "return err", "zero := cur.Def().Zero()", "price := *sl.Item.Price", "price = price.RescaleUp(zero.Exp() + linePrecisionExtra)", "sum := price.Multiply(sl.Quantity)", "sum = tax.ApplyRoundingRule(rr, cur, sum)", "total := sum", "total = calculateLineDiscounts(sl.Discounts, sum, total, cur, rr)", "total = calculateLineCharges(sl.Charges, sl.Quantity, sum, total, cur, rr)", "sl.Sum = &sum", "sl.Total = &total", "return nil"] := rfl
 theorem calls_calculateLineItemPrice_as_modelled : calls_calculateLineItemPrice =
-    ["Def", "Errorf", "MatchPrecision", "Zero", "Def", "MatchPrecision", "Zero", "Def", "Convert", "Errorf"] := by decide
+    ["Def", "Errorf", "MatchPrecision", "Zero", "Def", "MatchPrecision", "Zero", "Def", "Convert", "Errorf"] := rfl
 theorem conds_calculateLineItemPrice_as_modelled : conds_calculateLineItemPrice =
-    ["icur == currency.CodeEmpty", "icur.Def() == nil", "item.Currency == currency.CodeEmpty || item.Currency == cur", "ap.Currency == cur", "np == nil"] := by decide
+    ["icur == currency.CodeEmpty", "icur.Def() == nil", "item.Currency == currency.CodeEmpty || item.Currency == cur", "ap.Currency == cur", "np == nil"] := rfl
+theorem stmts_calculateLineItemPrice_as_modelled : stmts_calculateLineItemPrice =
+    ["icur := item.Currency", "icur = cur", "return fmt.Errorf(\"invalid currency '%v'\", icur)", "price := item.Price.MatchPrecision(icur.Def().Zero())", "item.Price = &price", "return nil", "nap := &currency.Amount{ Currency: item.Currency, Value: price, }", "item.Currency = ap.Currency", "price = ap.Value.MatchPrecision(ap.Currency.Def().Zero())", "item.Price = &price", "item.AltPrices = []*currency.Amount{nap}", "return nil", "np := currency.Convert(rates, item.Currency, cur, price)", "return fmt.Errorf(\"no exchange rate found from '%v' to '%v'\", item.Currency, cur)", "item.Price = np", "item.Currency = cur", "item.AltPrices = []*currency.Amount{nap}", "return nil"] := rfl
 theorem calls_calculateLineDiscounts_as_modelled : calls_calculateLineDiscounts =
-    ["Def", "IsZero", "RescaleUp", "RescaleUp", "ApplyRoundingRule", "Of", "RescaleUp", "Subtract"] := by decide
+    ["Def", "IsZero", "RescaleUp", "RescaleUp", "ApplyRoundingRule", "Of", "RescaleUp", "Subtract"] := rfl
 theorem conds_calculateLineDiscounts_as_modelled : conds_calculateLineDiscounts =
-    ["d.Percent != nil && !d.Percent.IsZero()", "d.Base != nil"] := by decide
+    ["d.Percent != nil && !d.Percent.IsZero()", "d.Base != nil"] := rfl
+theorem stmts_calculateLineDiscounts_as_modelled : stmts_calculateLineDiscounts =
+    ["cd := cur.Def()", "base := sum", "b := d.Base.RescaleUp(cd.Subunits)", "d.Base = &b", "base = d.Base.RescaleUp(cd.Subunits + linePrecisionExtra)", "base = tax.ApplyRoundingRule(rr, cur, base)", "d.Amount = d.Percent.Of(base)", "d.Amount = cd.RescaleUp(d.Amount)", "total = total.Subtract(d.Amount)", "return total"] := rfl
 theorem calls_calculateLineCharges_as_modelled : calls_calculateLineCharges =
-    ["Def", "IsZero", "RescaleUp", "RescaleUp", "ApplyRoundingRule", "Of", "Multiply", "RescaleUp", "Add"] := by decide
+    ["Def", "IsZero", "RescaleUp", "RescaleUp", "ApplyRoundingRule", "Of", "Multiply", "RescaleUp", "Add"] := rfl
 theorem conds_calculateLineCharges_as_modelled : conds_calculateLineCharges =
-    ["c.Percent != nil && !c.Percent.IsZero()", "c.Base != nil", "c.Rate != nil", "c.Quantity != nil"] := by decide
+    ["c.Percent != nil && !c.Percent.IsZero()", "c.Base != nil", "c.Rate != nil", "c.Quantity != nil"] := rfl
+theorem stmts_calculateLineCharges_as_modelled : stmts_calculateLineCharges =
+    ["cd := cur.Def()", "base := sum", "b := c.Base.RescaleUp(cd.Subunits)", "c.Base = &b", "base = c.Base.RescaleUp(cd.Subunits + linePrecisionExtra)", "base = tax.ApplyRoundingRule(rr, cur, base)", "c.Amount = c.Percent.Of(base)", "q := quantity", "q = *c.Quantity", "c.Amount = c.Rate.Multiply(q)", "c.Amount = cd.RescaleUp(c.Amount)", "total = total.Add(c.Amount)", "return total"] := rfl
 theorem calls_calculateLineSum_as_modelled : calls_calculateLineSum =
-    ["Zero", "Def", "MatchPrecision", "Add"] := by decide
+    ["Zero", "Def", "MatchPrecision", "Add"] := rfl
 theorem conds_calculateLineSum_as_modelled : conds_calculateLineSum =
-    ["l.Total != nil"] := by decide
+    ["l.Total != nil"] := rfl
+theorem stmts_calculateLineSum_as_modelled : stmts_calculateLineSum =
+    ["sum := cur.Def().Zero()", "sum = sum.MatchPrecision(*l.Total)", "sum = sum.Add(*l.Total)", "return sum"] := rfl
 theorem calls_determineSubLinePrecision_as_modelled : calls_determineSubLinePrecision =
-    ["uint32", "Exp"] := by decide
+    ["uint32", "Exp"] := rfl
 theorem conds_determineSubLinePrecision_as_modelled : conds_determineSubLinePrecision =
-    ["sl.Item == nil || sl.Item.Price == nil", "x > e"] := by decide
+    ["sl.Item == nil || sl.Item.Price == nil", "x > e"] := rfl
+theorem stmts_determineSubLinePrecision_as_modelled : stmts_determineSubLinePrecision =
+    ["e := uint32(0)", "x := sl.Item.Price.Exp()", "e = x", "return e"] := rfl
 theorem calls_ApplyRoundingRule_as_modelled : calls_ApplyRoundingRule =
-    ["Def", "Rescale", "RescaleUp"] := by decide
+    ["Def", "Rescale", "RescaleUp"] := rfl
 theorem conds_ApplyRoundingRule_as_modelled : conds_ApplyRoundingRule =
-    [] := by decide
+    [] := rfl
+theorem stmts_ApplyRoundingRule_as_modelled : stmts_ApplyRoundingRule =
+    ["exp := cur.Def().Subunits", "return amount.Rescale(exp)", "return amount.RescaleUp(exp)"] := rfl
 theorem calls_Amount_RescaleUp_as_modelled : calls_Amount_RescaleUp =
-    ["Rescale"] := by decide
+    ["Rescale"] := rfl
 theorem conds_Amount_RescaleUp_as_modelled : conds_Amount_RescaleUp =
-    ["exp > a.exp"] := by decide
+    ["exp > a.exp"] := rfl
+theorem stmts_Amount_RescaleUp_as_modelled : stmts_Amount_RescaleUp =
+    ["return a.Rescale(exp)", "return a"] := rfl
 theorem calls_Amount_RescaleDown_as_modelled : calls_Amount_RescaleDown =
-    ["Rescale"] := by decide
+    ["Rescale"] := rfl
 theorem conds_Amount_RescaleDown_as_modelled : conds_Amount_RescaleDown =
-    ["exp < a.exp"] := by decide
+    ["exp < a.exp"] := rfl
+theorem stmts_Amount_RescaleDown_as_modelled : stmts_Amount_RescaleDown =
+    ["return a.Rescale(exp)", "return a"] := rfl
 theorem calls_Amount_MatchPrecision_as_modelled : calls_Amount_MatchPrecision =
-    ["RescaleUp"] := by decide
+    ["RescaleUp"] := rfl
 theorem conds_Amount_MatchPrecision_as_modelled : conds_Amount_MatchPrecision =
-    [] := by decide
+    [] := rfl
+theorem stmts_Amount_MatchPrecision_as_modelled : stmts_Amount_MatchPrecision =
+    ["return a.RescaleUp(a2.exp)"] := rfl
 theorem calls_Amount_Upscale_as_modelled : calls_Amount_Upscale =
-    ["Rescale", "Exp"] := by decide
+    ["Rescale", "Exp"] := rfl
 theorem conds_Amount_Upscale_as_modelled : conds_Amount_Upscale =
-    [] := by decide
+    [] := rfl
+theorem stmts_Amount_Upscale_as_modelled : stmts_Amount_Upscale =
+    ["return a.Rescale(a.Exp() + increase)"] := rfl
 theorem calls_Percentage_Of_as_modelled : calls_Percentage_Of =
-    ["Multiply"] := by decide
+    ["Multiply"] := rfl
 theorem conds_Percentage_Of_as_modelled : conds_Percentage_Of =
-    [] := by decide
+    [] := rfl
+theorem stmts_Percentage_Of_as_modelled : stmts_Percentage_Of =
+    ["return a.Multiply(p.amount)"] := rfl
 theorem calls_Percentage_From_as_modelled : calls_Percentage_From =
-    ["Divide", "Factor", "Subtract"] := by decide
+    ["Divide", "Factor", "Subtract"] := rfl
 theorem conds_Percentage_From_as_modelled : conds_Percentage_From =
-    [] := by decide
+    [] := rfl
+theorem stmts_Percentage_From_as_modelled : stmts_Percentage_From =
+    ["x := a.Divide(p.Factor())", "return a.Subtract(x)"] := rfl
 theorem calls_Percentage_Factor_as_modelled : calls_Percentage_Factor =
-    ["Add"] := by decide
+    ["Add"] := rfl
 theorem conds_Percentage_Factor_as_modelled : conds_Percentage_Factor =
-    [] := by decide
+    [] := rfl
+theorem stmts_Percentage_Factor_as_modelled : stmts_Percentage_Factor =
+    ["return p.amount.Add(factor1)"] := rfl
 
 end ExpectCalc
 
